@@ -224,7 +224,7 @@ func zzC03ParrotMatchesSpec() {
 // zzRefIsGREASE16Concrete: for code points that are concrete on this path.
 func zzRefIsGREASE16Concrete(v uint16) bool { return v&0x0f0f == 0x0a0a && v>>8 == v&0xff }
 
-//verif:harness C04 wire_grease unwind=4000 instrs=400000000 paths=20000
+//verif:harness C04 wire_grease unwind=4000 instrs=400000000 paths=200000 wall=3000
 //verif:stub (*math/rand.Rand).Shuffle zzStubShuffle
 //verif:expect end
 //verif:doc Every predefined parrot, all random bytes symbolic: on the wire the (at most two) GREASE extensions have different reserved code points, GREASE cipher/group/version values are reserved, and the key_share GREASE group equals the supported_groups GREASE group.
@@ -328,7 +328,7 @@ func zzC04WireGrease() {
 //verif:harness C05 parrot_padding_length unwind=4000 instrs=400000000 paths=40000
 //verif:stub (*math/rand.Rand).Shuffle zzStubShuffle
 //verif:expect end
-//verif:doc Every predefined parrot whose spec carries a BoringSSL-style padding extension x SNI lengths (quick: 12 lengths spread over 1..253; thorough: every length 1..253) x ALPN on/off, all random bytes symbolic: with U = handshake message length without the padding extension, 255 < U < 512 => total 512 (or a 1-byte body when fewer than 5 bytes are missing), otherwise no padding extension; body all zero; at most one padding extension.
+//verif:doc Every predefined parrot whose spec carries a BoringSSL-style padding extension x SNI lengths (quick: 12 lengths spread over 1..253; thorough: every length 1..253) x optionally a rebuild after SetSNI with a name of length 1/60/150/253 (the padding extension is marshalled twice), all random bytes symbolic: with U = handshake message length without the padding extension, 255 < U < 512 => total 512 (or a 1-byte body when fewer than 5 bytes are missing), otherwise no padding extension; body all zero; at most one padding extension.
 func zzC05ParrotPaddingLength() {
 	p := zzChooseParrot()
 	spec, _ := zzRefSpec(p.id)
@@ -355,6 +355,18 @@ func zzC05ParrotPaddingLength() {
 	verifAssertClass(err == nil, "build-succeeds", p.name)
 	if err != nil {
 		return
+	}
+	// optionally the hello is rebuilt with a server name of another length (the
+	// same padding extension object is marshalled a second time): the rule
+	// applies to the hello that results
+	if verifBool("rebuild-with-other-sni") {
+		l2s := []int{1, 60, 150, 253}
+		uc.SetSNI(strings.Repeat("b", l2s[verifChoice("snilen2", len(l2s))]))
+		err = uc.BuildHandshakeState()
+		verifAssertClass(err == nil, "rebuild-succeeds", p.name)
+		if err != nil {
+			return
+		}
 	}
 	raw := uc.HandshakeState.Hello.Raw
 	h, why := zzRefParseClientHello(raw)
